@@ -185,6 +185,15 @@ var fProg = bigslice.Func(func(tag int, shape, op, prefix string, data, failShar
 	panic("c13: bad shape " + shape)
 })
 
+// fConsume is the second computation of a "reuse" history: an identity Map over the
+// (discarded) result of fProg.
+var fConsume = bigslice.Func(func(tag int, s bigslice.Slice) bigslice.Slice {
+	return bigslice.Map(s, func(k string, v int) (string, int) {
+		count(tag, "consume")
+		return k, v
+	})
+})
+
 // ---- reference model -------------------------------------------------------------
 
 type prog struct {
